@@ -292,6 +292,14 @@ func (x *Exec) checkFrame(s *State, ct *Contract) {
 		switch t := m.E.(type) {
 		case *ast.IndexExpr:
 			b := e.eval(t.X)
+			if _, isMap := under(b.T).(*types.Map); isMap {
+				pres, _, _, _, names := x.mapArrays(entry, b.T)
+				allowed[pres] = append(allowed[pres], cell{ref: b.S})
+				for _, n := range names {
+					allowed[n] = append(allowed[n], cell{ref: b.S})
+				}
+				continue
+			}
 			et := under(b.T).(*types.Slice).Elem()
 			for _, l := range leavesOf(et) {
 				name := "M$" + typeKey(et) + "$" + l.path
